@@ -96,7 +96,9 @@ theorem appendParameter_kind (d d' : Dir) (v : Bytes) (h : d.appendParameter v =
 include hkind in
 /-- `core.next`: the only place a directive is created is the Keyword branch -/
 theorem onLexeme_dirs (c c' : Core) (l : Lexeme) (hc : DirsAll p c)
-    (hnew : ∀ d : Dir, c.banned.contains d.kind = false → Spec.newDirectiveType d.keyword = some d.kind → p d = true)
+    (hnew : ∀ d : Dir, c.banned.contains d.kind = false → Spec.newDirectiveType d.keyword = some d.kind →
+      d.keyword ≠ includeKw → p d = true)
+    (hni : l.ty = .Keyword → lexBytes c.current l ≠ some includeKw)
     (h : c.onLexeme l = .ok c') : DirsAll p c' ∧ c'.banned = c.banned := by
   have pend : ∀ (d d2 : Dir), c.cur = some d → d2.kind = d.kind → d2.keyword = d.keyword → ∀ dd, some d2 = some dd → p dd = true := by
     intro d d2 hd hk hkw dd hdd
@@ -122,9 +124,18 @@ theorem onLexeme_dirs (c c' : Core) (l : Lexeme) (hc : DirsAll p c)
            simp only [Option.some.injEq] at hd
            subst hd
            rename_i k _ hnt hnb _ _ _ _
-           refine hnew _ ?_ hnt
-           rw [← hb]
-           simpa using hnb)
+           have hty : l.ty = LexType.Keyword := by assumption
+           have hcur : c1.current = c.current := by
+             unfold Core.processCurrent at hp
+             repeat' split at hp
+             all_goals first | (cases hp; done) | (cases hp; rfl)
+           refine hnew _ ?_ hnt ?_
+           · rw [← hb]
+             simpa using hnb
+           · intro he
+             apply hni hty
+             rw [← hcur, ‹lexBytes c1.current l = some _›]
+             exact congrArg some he)
   · -- Parameter
     split at h
     · cases h
@@ -199,7 +210,8 @@ theorem processInclude_dirs (c c' : Core) (fsys : FileSys) (kw : Lexeme) (h : c.
 
 include hkind in
 theorem run_dirs (fsys : FileSys) (n : Nat) (banned : List Kind)
-    (hnew : ∀ d : Dir, banned.contains d.kind = false → Spec.newDirectiveType d.keyword = some d.kind → p d = true) :
+    (hnew : ∀ d : Dir, banned.contains d.kind = false → Spec.newDirectiveType d.keyword = some d.kind →
+      d.keyword ≠ includeKw → p d = true) :
     ∀ (c c' : Core), DirsAll p c → c.banned = banned → Core.run fsys n c = .ok c' → DirsAll p c' := by
   induction n with
   | zero => intro c c' _ _ h; simp [Core.run] at h
@@ -221,7 +233,13 @@ theorem run_dirs (fsys : FileSys) (n : Nat) (banned : List Kind)
         · split at h
           · cases h
           · rename_i c1 hon
-            obtain ⟨h1, h2⟩ := onLexeme_dirs p hkind _ c1 l (hc1 false) (by intro d hd hk; exact hnew d (by rw [← hb]; exact hd) hk) hon
+            have hninc : ¬ ((l.ty == LexType.Keyword && lexBytes c.current l == some includeKw) = true) := by assumption
+            obtain ⟨h1, h2⟩ := onLexeme_dirs p hkind _ c1 l (hc1 false) (by intro d hd hk hne; exact hnew d (by rw [← hb]; exact hd) hk hne)
+              (by
+                intro hty hlb
+                apply hninc
+                have : lexBytes c.current l = some includeKw := hlb
+                simp [hty, this]) hon
             exact ih c1 c' h1 (by rw [h2]; exact hb) h
     · rename_i sc' _
       split at h
@@ -243,7 +261,7 @@ theorem scan_forest_not_banned (fsys : FileSys) (n : Nat) (rootName : Bytes) (en
   have hk : ∀ d d' : Dir, d'.kind = d.kind → d'.keyword = d.keyword → notBanned banned d = true → notBanned banned d' = true := by
     intro d d' hk _ hd
     simpa [notBanned, hk] using hd
-  have := run_dirs (notBanned banned) hk fsys n banned (by intro d hd _; simp only [notBanned, hd]; rfl) _ c'
+  have := run_dirs (notBanned banned) hk fsys n banned (by intro d hd _ _; simp only [notBanned, hd]; rfl) _ c'
     ⟨rfl, fun d hd => by cases hd⟩ rfl h
   exact forest_all _ _ this.1
 
@@ -258,7 +276,37 @@ theorem scan_forest_keywords (fsys : FileSys) (n : Nat) (rootName : Bytes) (env 
   have hk : ∀ d d' : Dir, d'.kind = d.kind → d'.keyword = d.keyword → kindOfKeyword d = true → kindOfKeyword d' = true := by
     intro d d' hk hkw hd
     simpa [kindOfKeyword, hk, hkw] using hd
-  have := run_dirs kindOfKeyword hk fsys n banned (by intro d _ hd; simp [kindOfKeyword, hd]) _ c'
+  have := run_dirs kindOfKeyword hk fsys n banned (by intro d _ hd _; simp [kindOfKeyword, hd]) _ c'
+    ⟨rfl, fun d hd => by cases hd⟩ rfl h
+  exact forest_all _ _ this.1
+
+theorem newDirectiveType_include (w : Bytes) (h : Spec.newDirectiveType w = some .Include) : w = includeKw := by
+  unfold Spec.newDirectiveType at h
+  split at h
+  · rename_i k hf
+    simp only [Option.some.injEq] at h
+    subst h
+    have := List.find?_some hf
+    exact (beq_iff_eq.mp this).symm
+  · split at h
+    · split at h <;> simp at h
+    · simp at h
+
+def notInclude (d : Dir) : Bool := d.kind != .Include
+
+/-- **INCLUDE leaves no node of its own**: no directive of the scanned forest has the kind INCLUDE -/
+theorem scan_forest_no_include (fsys : FileSys) (n : Nat) (rootName : Bytes) (env : Env) (banned : List Kind) (c' : Core)
+    (h : Core.run fsys n { current := { name := rootName, env := env, sc := Sc.init .stateRoot }, banned := banned } = .ok c') :
+    Tree.allList notInclude c'.ctx.forest = true := by
+  have hk : ∀ d d' : Dir, d'.kind = d.kind → d'.keyword = d.keyword → notInclude d = true → notInclude d' = true := by
+    intro d d' hk _ hd
+    simpa [notInclude, hk] using hd
+  have := run_dirs notInclude hk fsys n banned (by
+      intro d _ hd hne
+      simp only [notInclude, bne_iff_ne, ne_eq]
+      intro hki
+      rw [hki] at hd
+      exact hne (newDirectiveType_include _ hd)) _ c'
     ⟨rfl, fun d hd => by cases hd⟩ rfl h
   exact forest_all _ _ this.1
 
